@@ -910,7 +910,7 @@ class FlippedEncoding(LazyIndexMap):
         shape = self.shape
         for a in self._axes:
             indices[:, a] *= -1
-            indices[:, a] += shape
+            indices[:, a] += shape[a] - 1
         return indices
 
     def _from_base_indices(self, base_indices):
